@@ -1,0 +1,76 @@
+//go:build verif
+
+package memory
+
+import "github.com/paulsonkoly/calc/types/value"
+
+// Verification hooks (build tag verif). Observation only, except VerifTight
+// which makes every stack growth reallocate (append may legally do that at
+// any growth).
+
+// VerifTight trims every freshly grown stack to the smallest legal length and
+// capacity so the next growth must move the backing array again.
+var VerifTight bool
+
+// VerifCounters counts allocator events since the last reset.
+type VerifCounters struct {
+	Grow       int // growStack took its growth branch
+	CloneNew   int // Clone(nil)
+	CloneReuse int // Clone(reuse != nil)
+}
+
+// VerifCnt is the global event counter set.
+var VerifCnt VerifCounters
+
+// VerifMemState is a snapshot of the stack registers of one memory.
+type VerifMemState struct {
+	SP       int
+	FPLen    int
+	Closures int
+	StackLen int
+	StackCap int
+}
+
+// VerifState returns the registers of m.
+func (m *Type) VerifState() VerifMemState {
+	return VerifMemState{SP: m.sp, FPLen: len(m.fp), Closures: len(m.closure), StackLen: len(m.stack), StackCap: cap(m.stack)}
+}
+
+// VerifSP returns the stack pointer.
+func (m *Type) VerifSP() int { return m.sp }
+
+// VerifGlobalNames returns the names bound in the global frame.
+func (m *Type) VerifGlobalNames() []string {
+	r := make([]string, 0, len(m.global))
+	for k := range m.global {
+		r = append(r, k)
+	}
+	return r
+}
+
+// VerifGlobal returns a global binding.
+func (m *Type) VerifGlobal(name string) (value.Type, bool) {
+	v, ok := m.global[name]
+	return v, ok
+}
+
+// VerifFP returns a copy of the frame pointer pairs.
+func (m *Type) VerifFP() []int { return append([]int(nil), m.fp...) }
+
+// VerifStackAt reads a raw stack slot.
+func (m *Type) VerifStackAt(i int) value.Type { return m.stack[i] }
+
+func verifAfterGrow(m *Type, size int) {
+	VerifCnt.Grow++
+	if VerifTight && m.sp+size+1 <= len(m.stack) && m.sp+size+1 > 0 {
+		m.stack = m.stack[: m.sp+size+1 : m.sp+size+1]
+	}
+}
+
+func verifClone(reuse *Type) {
+	if reuse != nil {
+		VerifCnt.CloneReuse++
+	} else {
+		VerifCnt.CloneNew++
+	}
+}
